@@ -11,7 +11,7 @@ pub fn run(_ctx: &Ctx) -> Outcome {
     rt.block_on(async {
         let spec = ClusterSpec {
             nodes: vec![
-                NodeSpec { dc: Some("dc1".into()), rack: Some("r1".into()), tokens: vec![-100, 500], sharding: Some(ShardSpec { nr_shards: 4, msb_ignore: 12, shard_aware_port: true }), features: Features { metadata_id: true, tablets: true, lwt_mark: Some(0x80000000), rate_limit_code: None } },
+                NodeSpec { dc: Some("dc1".into()), rack: Some("r1".into()), tokens: vec![-100, 500], sharding: Some(ShardSpec { nr_shards: 4, msb_ignore: 12, shard_aware_port: true }), features: Features { metadata_id: true, tablets: true, lwt_mark: Some(0x80000000), rate_limit_code: None, ..Default::default() } },
                 NodeSpec::simple("dc1", "r2", vec![0, 1000]),
                 NodeSpec::simple("dc2", "r1", vec![200]),
             ],
